@@ -5,6 +5,7 @@ from ..symalg import X
 
 def check(ctx):
     check_polynomial_detrend(ctx)
+    check_powers_in_float(ctx)
     check_df_wrapper(ctx, "df_detrend", "polynomial_detrend", "R2-per-column-on-a-copy")
     check_integral_rms(ctx)
     check_get_rms(ctx)
@@ -27,5 +28,5 @@ def check(ctx):
               "L7: the residual of a least-squares fit is orthogonal to the fitted basis")
     ctx.assume("exact arithmetic: orthogonality / idempotence to rounding and the Parseval link are not decided")
     return ("polynomial_detrend is interpreted for orders 0,1,2,3,5: it returns x - P(t), P the least-squares polynomial of exactly that degree fitted to x and evaluated over "
-            "the same abscissa (order 0: x - mean); df_detrend applies it to each selected numeric column of a copy and stores its output unconverted; integral_rms is "
+            "the same abscissa (order 0: x - mean); no power of an integer-typed sample axis is formed (int64 wrap-around for long records); df_detrend applies it to each selected numeric column of a copy and stores its output unconverted; integral_rms is "
             "sqrt of the trapezoid integral of asd^2 over f, both cropped by one inclusive mask; get_rms delegates to it with (self.f, self.asd, band).")
